@@ -278,6 +278,40 @@ theorem sent_services_surface (vs : List Service) (hok : ∀ v ∈ vs, v.ok = tr
       simp only [List.filterMap_cons, this]
       rw [ih (fun w hw => hok w (List.mem_cons_of_mem _ hw)) fs hfs.2]
 
+
+/-! ### Send: one datagram, exactly the frame
+
+  `TunnelSocket.Send` and `RouterSocket.Send` are `buffer := make([]byte, Size(payload)); Pack(buffer, payload)`
+  followed by ONE write of the whole buffer.  With the buffer-writing model of `Pack` (Knx.Buf, Props.C15)
+  the bytes handed to the network are exactly the frame. -/
+
+/-- the buffer `Send` hands to the connection's single write -/
+def sendBytes (v : Service) : Option (List Byte) :=
+  match Knx.Buf.packFrame v, sizeBody v with
+  | some p, some sz => p (List.replicate (sz + 6) 0)
+  | _, _ => none
+
+theorem packBody_some (v : Service) (e : List Byte) (h : encBody v = some e) : ∃ p, Knx.Buf.packBody v = some p := by
+  cases v <;> simp [encBody] at h <;> simp [Knx.Buf.packBody]
+
+theorem send_is_one_frame (v : Service) (frame : List Byte) (h : encFrame v = some frame) :
+    sendBytes v = some frame := by
+  have h0 := h
+  unfold encFrame at h
+  cases heb : encBody v with
+  | none => simp [heb] at h
+  | some eb =>
+    have hs := Props.C15.body_size v eb heb
+    obtain ⟨pb, hpb⟩ := packBody_some v eb heb
+    simp only [heb, hs, Option.some.injEq] at h
+    have hlen : frame.length = eb.length + 6 := by subst h; simp [encU16]
+    have hpf : ∃ p, Knx.Buf.packFrame v = some p := by simp [Knx.Buf.packFrame, hpb, hs]
+    obtain ⟨p, hp⟩ := hpf
+    simp only [sendBytes, hp, hs]
+    exact (Props.C15.frame_prefill_independent v p frame hp h0 (List.replicate (eb.length + 6) 0)
+      (List.replicate (eb.length + 6) 0) (by simp [hlen]) (by simp [hlen])).1
+
+
 /-- once stopped, the receiver surfaces nothing more (its `Inbound` is closed) -/
 theorem stopped_stays (buf c : List Byte) : feed ⟨buf, true⟩ c = (⟨buf ++ c, true⟩, []) :=
   settle_dead _
